@@ -4,6 +4,7 @@ import (
 	"go/ast"
 	"go/token"
 	"go/types"
+	"strings"
 
 	"golang.org/x/tools/go/cfg"
 )
@@ -540,6 +541,149 @@ func init() {
 						}
 					}
 					obs = append(obs, mkOb(c, "ARRAY.dims-owned", u, construct, cl, Violated, "the array stores `"+types.ExprString(d)+"` as its dimension list without copying it: a caller that passes another vector's list makes the two vectors share their length cell, and append! on one changes the other's length", true))
+					return true
+				})
+			}
+			return obs
+		}})
+}
+
+func init() {
+	register(&Rule{ID: "EVAL.no-reeval", Floor: 1,
+		Doc: "a special operator never places a VALUE (the result of an evaluation it made, or the data cells of an error value) into a form that it then hands to the evaluator: values are passed to a function with FunCall, whose arguments are not evaluated again — a value that is a symbol or an unquoted list would otherwise be looked up or applied a second time",
+		Run: func(c *Ctx) []Obligation {
+			sexpr := c.LookupPkgFunc("lisp.SExpr")
+			if sexpr == nil {
+				return []Obligation{anchorMissing("EVAL.no-reeval", "lisp.SExpr")}
+			}
+			var obs []Obligation
+			for _, e := range c.Registry() {
+				if rel(e.Pkg.PkgPath) != "lisp" || e.Kind != "op" {
+					continue
+				}
+				body, u, _, ok := c.BodyOf(e)
+				if !ok || u.Decl == nil {
+					continue
+				}
+				info := u.Pkg.TypesInfo
+				isEvalCall := func(x ast.Expr) bool {
+					ce, ok := ast.Unparen(x).(*ast.CallExpr)
+					if !ok {
+						return false
+					}
+					se, ok := ast.Unparen(ce.Fun).(*ast.SelectorExpr)
+					if !ok || se.Sel.Name != "Eval" {
+						return false
+					}
+					tv, ok := info.Types[se.X]
+					return ok && strings.HasSuffix(tv.Type.String(), "lisp.LEnv")
+				}
+				// value locals: assigned from env.Eval(...) anywhere in the body
+				values := map[types.Object]bool{}
+				ast.Inspect(body, func(n ast.Node) bool {
+					if as, ok := n.(*ast.AssignStmt); ok && len(as.Lhs) == len(as.Rhs) {
+						for i, r := range as.Rhs {
+							if isEvalCall(r) {
+								if o := identObj(info, as.Lhs[i]); o != nil {
+									values[o] = true
+								}
+							}
+						}
+					}
+					return true
+				})
+				mentionsValue := func(x ast.Expr) (string, bool) {
+					hit, what := false, ""
+					ast.Inspect(x, func(n ast.Node) bool {
+						if id, ok := n.(*ast.Ident); ok {
+							if o := info.Uses[id]; o != nil && values[o] {
+								hit, what = true, o.Name()
+							}
+						}
+						return !hit
+					})
+					return what, hit
+				}
+				// slices that receive a value element (append(s, val) / append(s, val.Cells...) / literal)
+				tainted := map[types.Object]string{}
+				for pass := 0; pass < 2; pass++ {
+					ast.Inspect(body, func(n ast.Node) bool {
+						as, ok := n.(*ast.AssignStmt)
+						if !ok || len(as.Lhs) != len(as.Rhs) {
+							return true
+						}
+						for i, r := range as.Rhs {
+							lo := identObj(info, as.Lhs[i])
+							if lo == nil {
+								continue
+							}
+							switch x := ast.Unparen(r).(type) {
+							case *ast.CallExpr:
+								if id, ok := ast.Unparen(x.Fun).(*ast.Ident); ok && id.Name == "append" {
+									for _, a := range x.Args[1:] {
+										if w, ok := mentionsValue(a); ok {
+											tainted[lo] = w
+										}
+									}
+									if o := identObj(info, x.Args[0]); o != nil {
+										if w, ok := tainted[o]; ok {
+											tainted[lo] = w
+										}
+									}
+								}
+							case *ast.CompositeLit:
+								for _, el := range x.Elts {
+									if w, ok := mentionsValue(el); ok {
+										// a value wrapped in Quote(...) is inert
+										if ce, ok := ast.Unparen(el).(*ast.CallExpr); ok {
+											if fn := Callee(info, ce); fn != nil && fn.Name() == "Quote" {
+												continue
+											}
+										}
+										tainted[lo] = w
+									}
+								}
+							}
+						}
+						return true
+					})
+				}
+				ord := &ordinal{}
+				nsites := 0
+				ast.Inspect(body, func(n ast.Node) bool {
+					ce, ok := n.(*ast.CallExpr)
+					if !ok || len(ce.Args) != 1 {
+						return true
+					}
+					se, ok := ast.Unparen(ce.Fun).(*ast.SelectorExpr)
+					if !ok || (se.Sel.Name != "Eval" && se.Sel.Name != "Terminal") {
+						return true
+					}
+					if tv, ok := info.Types[se.X]; !ok || !strings.HasSuffix(tv.Type.String(), "lisp.LEnv") {
+						return true
+					}
+					// the form evaluated: SExpr(slice) directly or a local defined by it
+					var sl ast.Expr
+					arg := ast.Unparen(ce.Args[0])
+					if inner, ok := arg.(*ast.CallExpr); ok && originOf(Callee(info, inner)) == sexpr && len(inner.Args) == 1 {
+						sl = inner.Args[0]
+					} else if o := identObj(info, arg); o != nil {
+						if dc, _, _ := definingCall(info, body, o); dc != nil && originOf(Callee(info, dc)) == sexpr && len(dc.Args) == 1 {
+							sl = dc.Args[0]
+						}
+					}
+					if sl == nil {
+						return true
+					}
+					nsites++
+					construct := ord.next(se.Sel.Name + " of a built form")
+					if o := identObj(info, sl); o != nil {
+						if w, ok := tainted[o]; ok {
+							obs = append(obs, mkOb(c, "EVAL.no-reeval", u, construct, ce, Violated, "the form handed to the evaluator contains `"+w+"`, a value this operator obtained by evaluation: it is evaluated a second time (a symbol value is looked up, an unquoted list value is applied)", true))
+							return true
+						}
+					}
+					obs = append(obs, mkOb(c, "EVAL.no-reeval", u, construct, ce, Proved, "the form is built from unevaluated source forms only", true))
 					return true
 				})
 			}
